@@ -57,4 +57,45 @@ CHECKS.update({
     ),
 })
 
+SCHED_NOTE = ('Statement-granular cooperative schedules over threads with separate SQLite connections (timeout=0); races inside one '
+              'SQLite call and OS-process clients are not explored at this level. Trusts the scheduler seams (self-tested each run).')
+
+CHECKS.update({
+    'C05': dict(
+        level='exploration',
+        technique='generated concurrent programs x generated statement-level schedules (cooperative scheduler), Wing-Gong linearizability checker',
+        text='2-4 clients x 1-4 calls on shared keys with inline and file-backed values run under generated schedules over every SQL statement and file operation; '
+             'the completed history must be linearizable against a dictionary model (only a lookup miss overlapping a write/removal is tolerated); iteration is a weakly consistent scan.',
+        note=SCHED_NOTE, ref='3/C05',
+    ),
+    'C10': dict(
+        level='exploration',
+        technique='model-based sequences vs. one deque per prefix (Hypothesis) + scheduled producers/consumers with linearizability checking',
+        text='Sequences of push/pull/peek over prefixes that extend one another, mixed with ordinary keys and expiring/file-backed items, are judged against independent per-prefix deques; '
+             'concurrent producers/consumers under generated schedules must linearize against the same model (exactly-once delivery, per-producer order).',
+        note=SCHED_NOTE, ref='3/C10',
+    ),
+    'C11': dict(
+        level='exploration',
+        technique='differential testing vs. collections.deque over generated op sequences + scheduled producers/consumers with linearizability checking',
+        text='Every Deque method incl. positional access over the out-of-range span, rotate, comparisons, maxlen changes and reopen/pickle/copy events is compared step by step with collections.deque '
+             'for four origins; concurrent append/pop programs must linearize against the bounded deque.',
+        note=SCHED_NOTE, ref='3/C11',
+    ),
+    'C12': dict(
+        level='exploration',
+        technique='differential testing vs. collections.OrderedDict over generated op sequences + scheduled clients with strict linearizability checking',
+        text='Every Index method, views, equality against ordered/unordered mappings and reopen/unpickle events are compared step by step with OrderedDict; concurrent lookups, replacements, '
+             'setdefault and popitem under generated schedules must linearize with no tolerated miss.',
+        note=SCHED_NOTE, ref='3/C12',
+    ),
+    'C15': dict(
+        level='exploration',
+        technique='generated contender programs x generated schedules with an independent critical-section witness; bounded liveness; refusal probes',
+        text='2-4 contenders loop acquire/critical section/release on Lock, RLock (nested), BoundedSemaphore (1-3) and barrier-wrapped functions over Cache and FanoutCache; '
+             'an independent witness counts simultaneous holders at yield points inside the critical section; releases of what is not held must raise AssertionError and change nothing.',
+        note=SCHED_NOTE + ' Liveness is bounded (fair tail, step limit 50x uncontended).', ref='3/C15',
+    ),
+})
+
 NOT_APPLICABLE = {p: PENDING for p in ['C%02d' % i for i in range(1, 21)] if p not in CHECKS}
